@@ -47,7 +47,10 @@ struct LogRecordSetterTrait<EventId>
   template <class ArgumentType>
   inline static LogRecord *Set(LogRecord *log_record, ArgumentType &&arg) noexcept
   {
-    log_record->SetEventId(arg.id_, nostd::string_view{arg.name_.get()});
+    // An EventId constructed from the id alone has no name.
+    log_record->SetEventId(arg.id_, arg.name_.get() != nullptr
+                                        ? nostd::string_view{arg.name_.get()}
+                                        : nostd::string_view{});
 
     return log_record;
   }
